@@ -5,6 +5,7 @@ import ast
 
 from pta import paths as P
 from pta.check import Spec
+from pta.pat import find, has as phas
 from pta.model import AnalysisError
 from pta.rules.common import CGM, PREPROC, short
 
@@ -62,19 +63,28 @@ def r_seed_first(c):
                 "input or output")
     # what is seeded: inputs of all kinds and the output keys
     g = m.func(LC + ".generate_loopy")
-    src = ast.unparse(g)
-    c.check("Placeholder | SizeParam | DataWrapper" in src and "input_expr.name" in src,
-            "R15-SEED-FIRST", "target.loopy.codegen.generate_loopy", "seeds-input-names",
-            m.loc(LC, g), "input names (placeholders, size parameters, named data) are "
-            "not added to the generator")
-    c.check("state.var_name_gen.add_names(outputs)" in src, "R15-SEED-FIRST",
-            "target.loopy.codegen.generate_loopy", "seeds-output-keys", m.loc(LC, g),
-            "output keys are not added to the generator")
+    seeds = find(g, """$state.var_name_gen.add_names({$i.name for $n in $order
+        for $i in $ing($outs[$n].expr)
+        if isinstance($i, Placeholder | SizeParam | DataWrapper) if $i.name is not None})""")
+    c.check(len(seeds) == 1, "R15-SEED-FIRST", "target.loopy.codegen.generate_loopy",
+            "seeds-input-names", m.loc(LC, g),
+            "the names of all inputs (placeholders, size parameters, named data) of all "
+            "outputs are not added to the generator")
+    outs_seeded = find(g, "$state.var_name_gen.add_names($outs)")
+    c.check(len(outs_seeded) == 1 and (not seeds or (
+        outs_seeded[0]["$outs"] == seeds[0]["$outs"]
+        and outs_seeded[0]["$state"] == seeds[0]["$state"])),
+            "R15-SEED-FIRST", "target.loopy.codegen.generate_loopy", "seeds-output-keys",
+            m.loc(LC, g),
+            "output keys are not added to the generator in a separate add_names call "
+            "(which raises on a key that equals an input name)")
     g2 = m.func(NL + ".generate_numpy_like")
-    s2 = ast.unparse(g2)
-    c.check("var_name_gen.add_names(expr)" in s2 and "input_expr.name" in s2
-            and "function_name" in s2, "R15-SEED-FIRST",
-            "target.python.numpy_like.generate_numpy_like",
+    ep = g2.args.args[0].arg
+    s_in = find(g2, f"""$g.add_names({{$i.name for $i in InputGatherer()({ep})
+        if isinstance($i, Placeholder | SizeParam | DataWrapper) if $i.name is not None}})""")
+    c.check(len(s_in) == 1 and phas(g2, f"{s_in[0]['$g']}.add_names({ep})")
+            and phas(g2, f"{s_in[0]['$g']}.add_names({{$$a, 'np', function_name}})"),
+            "R15-SEED-FIRST", "target.python.numpy_like.generate_numpy_like",
             "seeds-inputs-outputs-and-module-names", m.loc(NL, g2),
             "the Python target does not reserve input names, output keys and the "
             "module/function names it emits")
@@ -417,12 +427,21 @@ def r_clash(c):
                     and k in ast.unparse(t.args[1]) for t in ast.walk(pv)),
                 "R15-CLASH", "NamesValidityChecker.post_visit", f"covers:{k}", where,
                 f"{k} inputs are not checked for name clashes")
-    c.check("if ary is not expr" in src and "raise NameClashError" in src, "R15-CLASH",
-            "NamesValidityChecker.post_visit", "different-object-same-name-raises", where,
-            "two distinct inputs with one name no longer raise NameClashError")
-    c.check("self.name_to_input[expr.name] = expr" in src, "R15-CLASH",
-            "NamesValidityChecker.post_visit", "records-first-seen", where,
-            "the first input seen under a name is not recorded")
+    pe = pv.args.args[1].arg
+    body = find(pv, f"""
+try:
+    $ary = self.name_to_input[{pe}.name]
+except KeyError:
+    self.name_to_input[{pe}.name] = {pe}
+else:
+    if $ary is not {pe}:
+        from pytato.diagnostic import NameClashError
+        raise NameClashError($$msg)
+""")
+    c.check(len(body) == 1, "R15-CLASH", "NamesValidityChecker.post_visit",
+            "first-seen-recorded;different-object-same-name-raises", where,
+            "the first input seen under a name is not recorded, or a different input "
+            "object with the same name no longer raises NameClashError")
     pre = m.func("pytato.codegen.preprocess")
 
     def cl(n):
@@ -497,16 +516,19 @@ def r_bound(c):
                 "the placeholder standing in for the data and the key it is bound "
                 "under differ")
     g = m.func(LC + ".generate_loopy")
-    c.check("bound_arguments=preproc_result.bound_arguments" in ast.unparse(g), "R15-BOUND",
+    pres = find(g, "$pr = preprocess($$a, $$b)")
+    c.check(bool(pres) and phas(g, f"$t.bind_program(program=$$p, bound_arguments={pres[0]['$pr']}.bound_arguments)"), "R15-BOUND",
             "generate_loopy", "hands-back-preprocessor-bindings", m.loc(LC, g),
             "the bound program does not get the preprocessor's bound arguments")
     pr = m.func("pytato.codegen.preprocess")
-    c.check("bound_arguments=mapper.bound_arguments" in ast.unparse(pr), "R15-BOUND",
+    mp_ = find(pr, "$mapper = CodeGenPreprocessor($$t)")
+    c.check(bool(mp_) and phas(pr, f"PreprocessResult(outputs=$$o, compute_order=$$c, bound_arguments={mp_[0]['$mapper']}.bound_arguments)"), "R15-BOUND",
             "codegen.preprocess", "returns-mapper-bindings", m.loc("pytato.codegen", pr),
             "preprocess does not return the mapper's bound arguments")
     # user names stay as they are
     mp = m.resolve_method(PREPROC, "map_placeholder")[1]
-    c.check("new_name = expr.name" in ast.unparse(mp), "R15-BOUND",
+    c.check(phas(mp, f"$n = {mp.args.args[1].arg}.name") and phas(
+        mp, f"{mp.args.args[1].arg}.replace_if_different(name=$n, shape=$$s)"), "R15-BOUND",
             "CodeGenPreprocessor.map_placeholder", "keeps-user-name", m.loc(ci.module, mp),
             "a named placeholder does not keep its name through preprocessing")
     for meth, sink in (("map_placeholder", "lp.GlobalArg"), ("map_size_param", "lp.ValueArg")):
